@@ -204,16 +204,16 @@ impl<'a> StateMachine<'a> {
                     raw_line.len()
                 };
                 self.raw_line = raw_line[..truncated_len].to_string();
+                self.remove_carriage_return_before_trailing_escape_sequences();
                 self.line = ansi::strip_ansi_codes(&self.raw_line);
             }
         }
     }
 
-    fn ingest_line_utf8(&mut self, raw_line: String) {
-        self.raw_line = raw_line;
-        // When a file has \r\n line endings, git sometimes adds ANSI escape sequences between the
-        // \r and \n, in which case byte_lines does not remove the \r. Remove it now.
-        // TODO: Limit the number of characters we examine when looking for the \r?
+    // When a file has \r\n line endings, git sometimes adds ANSI escape sequences between the
+    // \r and \n, in which case byte_lines does not remove the \r. Remove it now.
+    // TODO: Limit the number of characters we examine when looking for the \r?
+    fn remove_carriage_return_before_trailing_escape_sequences(&mut self) {
         if let Some(cr_index) = self.raw_line.rfind('\r') {
             if ansi::measure_text_width(&self.raw_line[cr_index + 1..]) == 0 {
                 self.raw_line = format!(
@@ -223,6 +223,11 @@ impl<'a> StateMachine<'a> {
                 );
             }
         }
+    }
+
+    fn ingest_line_utf8(&mut self, raw_line: String) {
+        self.raw_line = raw_line;
+        self.remove_carriage_return_before_trailing_escape_sequences();
         if self.config.max_line_length > 0
             && self.raw_line.len() > self.config.max_line_length
             // Do not truncate long hunk headers
